@@ -1,5 +1,5 @@
 (* C12 — diff output is sorted, disjoint, well-formed and confined. *)
-From MST Require Import Base TreeM Diff Spec TreeInv Intervals DiffWalk Statements DiffTotal DiffTrees TreeRL DiffTop DiffMore.
+From MST Require Import Base TreeM Diff Spec TreeInv TreeRanges Intervals DiffWalk Statements DiffTotal DiffTrees TreeRL DiffTop DiffMore.
 
 (* arbitrary well-formed page-range lists: ascending, not even sharing an end point, start <= end *)
 Theorem C12_lists :
@@ -14,17 +14,19 @@ Proof.
 Qed.
 Print Assumptions C12_lists.
 
-(* real trees: additionally every bound is a key held by the peer or by the local tree.
-   PARTIAL w.r.t. the property text: "starts at a key the peer holds / within the peer's span" is not yet
-   proved here (see DESIGN.md section 9). *)
-Theorem C12_trees_partial :
+(* real trees: additionally every range starts at a key the peer holds, ends at a key held by the peer or
+   by the local tree, and lies within the peer's smallest and largest key *)
+Theorem C12_confined :
   forall (digest V : Type) (H : list (tok digest V) -> digest) (lvl_of : N -> N),
   (forall k : N, lvl_of k < 255) ->
   forall deqb : digest -> digest -> bool, (forall a b : digest, deqb a b = true <-> a = b) ->
   forall (opsL opsP : list (TreeInv.op V)) (tL tP : mst digest V),
   TreeInv.run digest V H lvl_of opsL = Ok tL -> TreeInv.run digest V H lvl_of opsP = Ok tP ->
   exists rs, tree_diff digest V H deqb tL tP = Ok rs /\ Forall wf rs /\ strict_asc rs /\
-    Forall (fun r => (In (ds r) (Spec.keys (TreeInv.final_map V opsP)) \/ In (ds r) (Spec.keys (TreeInv.final_map V opsL))) /\
-                     (In (de r) (Spec.keys (TreeInv.final_map V opsP)) \/ In (de r) (Spec.keys (TreeInv.final_map V opsL)))) rs.
-Proof. exact DiffMore.tree_diff_wellformed. Qed.
-Print Assumptions C12_trees_partial.
+    Forall (fun r => In (ds r) (Spec.keys (TreeInv.final_map V opsP)) /\
+                     (In (de r) (Spec.keys (TreeInv.final_map V opsP)) \/ In (de r) (Spec.keys (TreeInv.final_map V opsL))) /\
+                     exists a b, TreeRanges.first_key V (TreeInv.final_map V opsP) = Some a /\
+                                 TreeRanges.last_key V (TreeInv.final_map V opsP) = Some b /\
+                                 a <= ds r /\ de r <= b) rs.
+Proof. exact DiffMore.C12_confined. Qed.
+Print Assumptions C12_confined.
